@@ -214,8 +214,8 @@ func runC17Round(w *World, round int) {
 	}
 	// consumer-side parameter deviations (the consumer module must refuse to open such channels)
 	for name, spec := range map[string]ChanSpec{
-		"consumer-side:unordered":  {ConsPort: "consumer", ProvPort: "provider", Version: "1", Order: channeltypes.UNORDERED},
-		"consumer-side:version-2":  {ConsPort: "consumer", ProvPort: "provider", Version: "2", Order: channeltypes.ORDERED},
+		"consumer-side:unordered":     {ConsPort: "consumer", ProvPort: "provider", Version: "1", Order: channeltypes.UNORDERED},
+		"consumer-side:version-2":     {ConsPort: "consumer", ProvPort: "provider", Version: "2", Order: channeltypes.ORDERED},
 		"consumer-side:wrong-cp-port": {ConsPort: "consumer", ProvPort: "transfer", Version: "1", Order: channeltypes.ORDERED},
 	} {
 		spec := spec
